@@ -86,9 +86,12 @@ def factory_specs(tier: str) -> list[dict]:
                 continue
             if quick and spectator != 0 and (Fraction(JA), Fraction(sR)) != (1, 1):
                 continue  # relabelings for one spin pattern only in the quick tier
+            high = any(Fraction(x) > 1 for x in (JA, s0, s1, s2, sR))
+            if high and spectator != 0:
+                continue  # spins 3/2: canonical labelling only
             for formalism in ("helicity", "canonical-helicity"):
                 for pc0, pc1 in ((False, False), (True, True), (True, False)):
-                    if quick and (pc0, pc1) == (True, False) and Fraction(JA) != 1:
+                    if (quick or high) and (pc0, pc1) == (True, False) and Fraction(JA) != 1:
                         continue
                     res = R.P("R1", sR, 1.2, -1)
                     specs.append(R.three_body_spec(
@@ -132,11 +135,11 @@ def factory_specs(tier: str) -> list[dict]:
     return specs
 
 
-def configs(tier: str, formalism: str) -> list[dict]:
+def configs(tier: str, formalism: str, heavy: bool = False) -> list[dict]:
     out = [{"couplings": False, "flags": {}, "dyn": "none"}]
     out.append({"couplings": True, "flags": {}, "dyn": "none"})
     out.append({"couplings": False, "flags": {"insert_parent_helicities": True}, "dyn": "bw"})
-    if tier == "thorough":
+    if tier == "thorough" and not heavy:
         out.append({"couplings": False, "flags": {"insert_child_helicities": False}, "dyn": "none"})
         if formalism != "helicity":
             out.append({"couplings": False, "flags": {"insert_ls_combinations": False}, "dyn": "none"})
@@ -159,7 +162,10 @@ def cases(tier, seed):
             continue
         if len(reaction.transitions) > MAX_TRANSITIONS[tier]:
             continue  # outside this tier's size bound (stated in RULE)
-        for cfg in configs(tier, spec["formalism"]):
+        heavy = len(reaction.transitions) > 40
+        for cfg in configs(tier, spec["formalism"], heavy):
+            if heavy and cfg["couplings"]:
+                continue
             out.append({"reaction": {"spec": spec}, "config": cfg, "seed": seed})
     names = R.catalogue_names()
     for name in names:
